@@ -653,3 +653,119 @@ Qed.
 (* with SetUnescapeBody(false) (refactor.Template, HasExpressions) the text is returned verbatim: stated on the
    token list, for any allowed list including nil *)
 End Body.
+
+(* the hypotheses of [body_passthrough] are satisfiable and the statement is not vacuous: an e-mail address, a
+   mention, "@@", a trailing '@' and "@." with allowed top levels foo and contact *)
+Example body_passthrough_witness :
+  let isln := fun c => ((48 <=? c) && (c <=? 57)) || ((65 <=? c) && (c <=? 90)) || ((97 <=? c) && (c <=? 122)) in
+  let lower := fun c => if (65 <=? c) && (c <=? 90) then c + 32 else c in
+  let tops := [[102; 111; 111]; [99; 111; 110; 116; 97; 99; 116]] in
+  (* bob@Nyaruka.com hi @bar.x @@foo @. @ *)
+  let t := [98; 111; 98; 64; 78; 121; 97; 114; 117; 107; 97; 46; 99; 111; 109; 32; 104; 105; 32; 64; 98; 97; 114; 46; 120;
+            32; 64; 64; 102; 111; 111; 32; 64; 46; 32; 64] in
+  isln eof = false /\ isln r_dot = false /\ isln r_at = false /\ nulfree t
+  /\ no_start isln lower (Some tops) t = true
+  /\ unescape_at t <> t
+  /\ no_start isln lower (Some tops) [64; 70; 111; 111; 46; 120] = false.     (* @Foo.x is an expression *)
+Proof.
+  cbv zeta. repeat split; try reflexivity.
+  - repeat constructor; discriminate.
+  - vm_compute. discriminate.
+Qed.
+
+(* ---------------------------------------------------------------------------------------------- *)
+(* C12, second sentence, scanner side: an expression whose text literals are read by the two-state rule
+   (a backslash protects the next rune) is cut out exactly. *)
+
+Section Literal.
+Variable isln : rune -> bool.
+Variable lower : rune -> rune.
+Hypothesis isln_eof : isln eof = false.
+
+(* inside a literal: a body accepted by Quote.body_scan is read up to the closing quote that follows it *)
+Lemma lit_mode : forall l esc p rest, body_scan esc l = true ->
+  p_expr (MLit esc) p (l ++ r_quote :: rest) =
+  let '(o, p', k) := p_expr MNorm p rest in (l ++ r_quote :: o, p', k).
+Proof.
+  induction l as [|c l IH]; intros esc p rest H.
+  - cbn [body_scan] in H. apply negb_true_iff in H. subst esc. cbn [app p_expr].
+    change (r_quote =? r_quote) with true. cbn [negb andb pre].
+    destruct (p_expr MNorm p rest) as [[o p'] k]. reflexivity.
+  - cbn [body_scan] in H. cbn [app p_expr]. destruct esc.
+    + rewrite andb_false_r. replace (if c =? r_bslash then negb true else false) with false
+        by (destruct (c =? r_bslash); reflexivity).
+      rewrite (IH _ _ _ H). destruct (p_expr MNorm p rest) as [[o p'] k]. reflexivity.
+    + change r_bslash with 92. change r_quote with 34 in *. destruct (c =? 92) eqn:EB.
+      * apply N.eqb_eq in EB. subst c. change (92 =? 34) with false. cbn [andb negb].
+        rewrite (IH _ _ _ H). destruct (p_expr MNorm p rest) as [[o p'] k]. reflexivity.
+      * destruct ((c =? 34) || (c =? 10)) eqn:EQ; [discriminate|]. apply orb_false_elim in EQ. destruct EQ as [EQ _].
+        rewrite EQ. cbn [andb]. rewrite (IH _ _ _ H). destruct (p_expr MNorm p rest) as [[o p'] k]. reflexivity.
+Qed.
+
+(* "scanner-closed": the scanner, started after "@(", returns exactly e when e is followed by ')' *)
+Definition closed_expr (e : text) : Prop :=
+  forall rest, p_expr MNorm 1 (e ++ r_rparen :: rest) = (e, O, rest).
+
+Lemma quoted_closed printable s : printable 10 = false -> closed_expr (quote printable s).
+Proof.
+  intros Hnl rest. unfold quote. cbn [app p_expr]. change (34 =? r_quote) with true. cbv iota.
+  rewrite <- app_assoc. cbn [app]. change 34 with r_quote at 2.
+  rewrite lit_mode by (apply quote_body_scan; exact Hnl).
+  cbn [p_expr]. change (r_rparen =? r_quote) with false. change (r_rparen =? r_lparen) with false.
+  change (r_rparen =? r_rparen) with true. cbn [Nat.pred Nat.eqb pre]. rewrite <- app_assoc. reflexivity.
+Qed.
+
+(* two closed expressions joined by text that contains no quote and no parenthesis *)
+Lemma p_expr_plain : forall m p rest, Forall (fun c => c <> r_quote /\ c <> r_lparen /\ c <> r_rparen) m ->
+  p_expr MNorm p (m ++ rest) = let '(o, p', k) := p_expr MNorm p rest in (m ++ o, p', k).
+Proof.
+  induction m as [|c m IH]; intros p rest H.
+  - cbn [app]. destruct (p_expr MNorm p rest) as [[o p'] k]. reflexivity.
+  - inversion H as [|? ? (H1 & H2 & H3) H4]; subst. cbn [app p_expr].
+    destruct (N.eqb_spec c r_quote); [contradiction|]. destruct (N.eqb_spec c r_lparen); [contradiction|].
+    destruct (N.eqb_spec c r_rparen); [contradiction|].
+    rewrite (IH _ _ H4). destruct (p_expr MNorm p rest) as [[o p'] k]. reflexivity.
+Qed.
+
+Lemma quoted_pair_closed printable s m t : printable 10 = false ->
+  Forall (fun c => c <> r_quote /\ c <> r_lparen /\ c <> r_rparen) m ->
+  closed_expr (quote printable s ++ m ++ quote printable t).
+Proof.
+  intros Hnl Hm rest. unfold quote at 1. cbn [app p_expr]. change (34 =? r_quote) with true. cbv iota.
+  rewrite <- !app_assoc. cbn [app]. change 34 with r_quote at 2.
+  rewrite lit_mode by (apply quote_body_scan; exact Hnl).
+  rewrite <- app_assoc, (p_expr_plain m 1 _ Hm).
+  rewrite <- app_assoc. rewrite (quoted_closed printable t Hnl rest). cbn [pre].
+  rewrite <- !app_assoc. reflexivity.
+Qed.
+
+(* a template that consists of one expression: one EXPRESSION token, then EOF *)
+Lemma single_expression (eval_expr : text -> option text) tops e :
+  nulfree e -> closed_expr e ->
+  template_with isln lower eval_expr tops (r_at :: r_lparen :: e ++ [r_rparen]) =
+  Ok (match eval_expr e with Some v => (v, O) | None => ([], 1%nat) end).
+Proof.
+  intros Hn Hc. unfold template_with.
+  set (w := r_at :: r_lparen :: e ++ [r_rparen]).
+  destruct (scan_all_ok isln lower (Some tops) true w) as (toks & HT).
+  rewrite HT; cbn [bind]. f_equal. unfold scan_all in HT.
+  assert (HR : R (new_input w) w).
+  { apply R_new. unfold w. apply nulfree_cons; split; [discriminate|]. apply nulfree_cons; split; [discriminate|].
+    apply nulfree_app; split; [exact Hn|]. repeat constructor. discriminate. }
+  cbn [length scan_all_loop] in HT.
+  destruct (scan isln lower (Some tops) true (new_input w)) as [[[ty tok] i1]| |] eqn:E1; cbn [bind] in HT; try discriminate.
+  pose proof (scan_ref isln lower isln_eof _ _ _ _ _ _ _ HR E1) as H1.
+  unfold w in H1. cbn [p_scan] in H1. change (r_at =? r_at) with true in H1.
+  change (r_lparen =? r_lparen) with true in H1. cbv iota in H1.
+  unfold p_scan_expr in H1. rewrite (Hc []) in H1. cbn [Nat.eqb] in H1. destruct H1 as (-> & -> & HR1).
+  cbn [toktype_eqb] in HT.
+  destruct (length (e ++ [r_rparen])) as [|n] eqn:EL.
+  { destruct e; discriminate. }
+  cbn [scan_all_loop] in HT.
+  destruct (scan isln lower (Some tops) true i1) as [[[ty2 tok2] i2]| |] eqn:E2; cbn [bind] in HT; try discriminate.
+  pose proof (scan_ref isln lower isln_eof _ _ _ _ _ _ _ HR1 E2) as H2.
+  cbn [p_scan] in H2. destruct H2 as (-> & -> & _). cbn [toktype_eqb bind] in HT.
+  inversion HT; subst. cbn [template_tokens]. destruct (eval_expr e); [rewrite app_nil_r|]; reflexivity.
+Qed.
+
+End Literal.
